@@ -2139,3 +2139,58 @@ def rf188(run):
                       'members of a section already have addresses, load_bss_data_section re-initialises only the item it is called for, and '
                       'the skipped members keep the bytes the program left in them' % (x['l'], txt[:70]), line=x['l'])
     return 1
+
+
+# ---------------------------------------------------------------------------------------------
+# RF194: every engine adds the displacement of an lref to what it stores into the cell
+# ---------------------------------------------------------------------------------------------
+
+def rf194(run):
+    import re
+    rule = 'RF194'
+    run.rule(rule, 'an lref item `lref L [, L2] [, disp]` denotes addr (L) [- addr (L2)] + disp.  Three functions fill the cell (the '
+                   'interpreter\'s code preparation, gen_setup_lrefs, create_bb_stubs); sibling agreement: in each of them every store '
+                   'through `lref->load_addr` has a value that — with locals replaced by their defining expressions along the statements in '
+                   'front of the store — mentions `lref->disp`, in the one-label and in the label-difference branch alike')
+    n = 0
+    for u, fn in (('mir', 'generate_icode'), ('gen', 'gen_setup_lrefs'), ('gen', 'create_bb_stubs')):
+        tu = run.tu(u)
+        f = tu.func(fn)
+        if f is None or f.body is None:
+            raise F.AnalysisBroken('%s not found' % fn)
+        stores = [x for x in f.walk() if x['k'] == 'BinaryOperator' and x['op'] == '=' and 'load_addr' in F.src(x['c'][0]) and 'lref' in F.src(x['c'][0])]
+        if not stores:
+            raise F.AnalysisBroken('%s: no store through lref->load_addr' % fn)
+        run.functions_analysed.add((u, fn))
+        for st in stores:
+            # definitions of locals in front of the store (same function, earlier line), later ones win
+            defs = {}
+            for x in f.walk():
+                if x['l'] > st['l']:
+                    continue
+                if x['k'] == 'DeclStmt':
+                    for d in x.get('decls', []):
+                        if d.get('init') is not None:
+                            defs.setdefault(d['n'], []).append((x['l'], F.src(d['init'])))
+                if x['k'] == 'BinaryOperator' and x['op'] == '=' and x is not st and F.strip(x['c'][0])['k'] == 'DeclRefExpr':
+                    defs.setdefault(F.strip(x['c'][0])['n'], []).append((x['l'], F.src(x['c'][1])))
+            txt = F.src(st['c'][1])
+            for _ in range(3):
+                for v, lst in defs.items():
+                    # all definitions that can reach the store are joined: the displacement must be in every one that matters,
+                    # so a variable stands for the concatenation of its definitions only if each mentions what the others do
+                    body = ' | '.join(t for l_, t in lst)
+                    if all('->disp' in t for l_, t in lst) or not any('->disp' in t for l_, t in lst):
+                        txt = re.sub(r'(?<![A-Za-z0-9_>.])%s(?![A-Za-z0-9_])' % re.escape(v), '(' + body + ')', txt)
+                    else:
+                        # some definitions carry the displacement, some do not: the last one in front of the store decides
+                        last = max(lst)[1]
+                        txt = re.sub(r'(?<![A-Za-z0-9_>.])%s(?![A-Za-z0-9_])' % re.escape(v), '(' + last + ')', txt)
+            ok = '->disp' in txt
+            n += 1
+            run.ob(rule, (fn, st['l']), ok, {'site': '%s:%d %s' % (f.relfile(), st['l'], fn), 'value stored (expanded)': txt[:160]})
+            if not ok:
+                run.violation(rule, f, 'lref cell without its displacement', '%s stores `%s` into the cell of an lref item (line %d): the displacement of '
+                              'the item is not part of the value — `lref L, L2, 24` then holds addr (L) - addr (L2) under this engine and '
+                              'addr (L) - addr (L2) + 24 under the others' % (fn, F.src(st['c'][1])[:60], st['l']), line=st['l'])
+    return n
